@@ -69,7 +69,8 @@ THEOREMS = [
         "readers_independent typed_readers_independent sets_in_file wtset_is_segment "
         "real_field_reads real_field_accuracy real_field_clean tabled1_roundtrip_values grid_roundtrip_values "
         "cord2_roundtrip_values dmig_roundtrip_values dmig_lines_int_instance "
-        "uset_bulk_roundtrip_labels uset_bulk_roundtrip_labels_full set_header_split_fails set_roundtrip_iff_partial"
+        "uset_bulk_roundtrip_labels uset_bulk_roundtrip_labels_full set_header_split_fails set_roundtrip_iff_partial "
+        "dmig_field_fits dmig_terms_in_range tabled1_field_overflow_counterexample"
     ).split()
 ]
 TRUSTED = [
@@ -81,7 +82,7 @@ TRUSTED = [
     "exponents, subnormals, values that round to the next power of ten) and by wtdmig-real",
     "user-supplied `form` strings of wtgrids / wttabled1 other than the defaults are formatted by Python and handed to the "
     "model as opaque tokens (the theorems then say the reader returns nas_sscanf(token)); the default formats '{:16.8f}', "
-    "'{:16.9E}{:16.9E}' and the fixed '{:16.9E}' (wtdmig), '{:16.8e}' (wtcoordcards) are modelled and proved as values",
+    "'{:16.9E}{:16.9E}' and the fixed _dmig_field ('{:16.9E}' / fallback '{:16.8E}', wtdmig), '{:16.8e}' (wtcoordcards) are modelled and proved as values",
     "text domain of the reader model: ASCII, no tabs, no 'inf'/'nan' words, no '_' inside numbers, no INCLUDE",
     "np.allclose(m.T, m) of wtdmig is modelled as exact symmetry (the streams use exactly symmetric or clearly "
     "asymmetric matrices; symmetric-within-allclose-only inputs are skipped and counted)",
@@ -132,9 +133,10 @@ ASSUMPTIONS = [
     "DMIG row labels are duplicate-free and column labels are duplicate-free (pandas allows duplicates; the reader then "
     "keeps the last term: shown by example in Props/C13Dmig.lean), DOF are 0..9",
     "wtgrids / vecwrite with no grid at all raise IndexError (modelled, not part of the round trip)",
-    "a real value is 'representable in the field' when its text in the writer's own format is not longer than the field "
-    "('%.9E' of a NEGATIVE double with a three-digit exponent is 17 characters: reported as a finding, excluded from the "
-    "value theorems by their fit hypothesis)",
+    "a real value is 'representable in the field' when its text in the writer's own format is not longer than the field: "
+    "'%.9E' of a NEGATIVE double with a three-digit exponent is 17 characters — wtdmig falls back to '%.8E' (F64, repaired: "
+    "dmig_field_fits needs no hypothesis on the values), wttabled1's default pair format does not (F65, open: the fit "
+    "hypothesis of tabled1_roundtrip_values, tabled1_field_overflow_counterexample)",
     "rddmig(expanded=True): every id referenced on the DMIG is used either as a scalar point (DOF 0) or as a grid (DOF "
     "1..6) throughout, form-9 column numbers are >= 1 and the header NCOL is an integer",
     "files read by several readers: the line after a card is not a continuation line of that card's syntax (a line of "
@@ -195,8 +197,10 @@ MANIFEST = {
     "direction of set_roundtrip; the oracle checks the iff for max_length 2..26); user-supplied `form` strings other than "
     "the defaults (opaque tokens); n2p.build_coords / addgrid / mkcordcardinfo geometry behind rdcord2cards / bulk2uset / "
     "uset2bulk (C14); FileOK for arbitrary written files (checked per generated file by the model's own decision "
-    "procedure); op2 DMIG. Findings reported by the oracle: a NEGATIVE value with a three-digit decimal exponent needs 17 "
-    "characters in '{:16.9E}' — wtdmig / wttabled1 then write an over-long field and the reader returns another number.",
+    "procedure); op2 DMIG. Findings: a NEGATIVE value with a three-digit decimal exponent needs 17 characters in '{:16.9E}' — "
+    "F64 wtdmig (repaired by 4411a34: _dmig_field falls back to '{:16.8E}'; modelled, translated, dmig_field_fits; regression "
+    "guard in the oracle), F65 wttabled1 default pair format (open: over-long field, the reader returns another number; "
+    "tabled1_field_overflow_counterexample).",
     "technique": "Lean 4 proof (induction over run/line/column/character structure; rational bounds through C12's eParts / "
     "rheDiv lemmas) + Python-ast translator of format strings and layout constants + exact-text differential "
     "correspondence with pyyeti.nastran.bulk / pyyeti.writer writers and readers",
@@ -1566,8 +1570,13 @@ def _gen_dmig_real(rng):
     d = _gen_dmig_int(rng)
     dt = {1: np.float32, 2: np.float64, 3: np.float32, 4: np.float64}[d["mtype"]]
 
+    wide = d["mtype"] % 2 == 0 and rng.random() < 0.25   # double types: also three-digit exponents (the fallback field)
+
     def rv():
-        mag = 10.0 ** rng.randint(-30 if d["mtype"] % 2 == 0 else -20, 30 if d["mtype"] % 2 == 0 else 20) if rng.random() < 0.5 else 1.0
+        if wide and rng.random() < 0.5:
+            mag = 10.0 ** rng.choice([rng.randint(-300, -100), rng.randint(100, 300)])
+        else:
+            mag = 10.0 ** rng.randint(-30 if d["mtype"] % 2 == 0 else -20, 30 if d["mtype"] % 2 == 0 else 20) if rng.random() < 0.5 else 1.0
         return float(dt(rng.uniform(0.5, 9.5) * rng.choice([-1, 1]) * mag))
 
     vals = {}
@@ -1632,7 +1641,8 @@ def _real_streams(ctx, B, texts):
         impl = _write(bulk.wtdmig, {d["name"]: _dmig_frame(d, a if d["mtype"] >= 3 else a.real)})
         form = impl[24:32].strip() if isinstance(impl, str) and len(impl) > 32 else "?"
         B.add("wtdmig-real", _dmig_real_req(d), {k: d[k] for k in ("name", "single", "mtype", "rowids", "colids", "mr")}, impl,
-              _text_conv(), branch=["dmigr:form" + form, "dmigr:type%d" % d["mtype"]])
+              _text_conv(), branch=["dmigr:form" + form, "dmigr:type%d" % d["mtype"]] +
+              (["dmigr:fallback-field"] if any(v < 0 and not (1e-99 <= -v < 9.9999999995e99) for row in d["mr"] for pr in row for v in pr) else []))
         if isinstance(impl, str) and not impl.startswith("error") and rng.random() < 0.5:
             texts.append(("dmig", impl))
 
@@ -1728,7 +1738,7 @@ REQUIRED = [
     "rdcord2:empty", "rdcord2:13-fields", "rdcord2cards",
     "usettab:with-spoints", "usettab:grids-only", "usettab:sorted", "usettab:unsorted", "usettab:cd-not-cp", "b2u",
     "real:E", "real:e", "real:f", "real:three-digit-exponent", "real:zero", "real:wider-than-field",
-    "dmigr:form1", "dmigr:form2", "dmigr:form6", "dmigr:form9", "dmigr:type1", "dmigr:type2", "dmigr:type3", "dmigr:type4",
+    "dmigr:form1", "dmigr:form2", "dmigr:form6", "dmigr:form9", "dmigr:type1", "dmigr:type2", "dmigr:type3", "dmigr:type4", "dmigr:fallback-field",
     "multi:fileok", "multi:dmig", "multi:grid", "multi:cord2", "multi:spoint", "multi:csuper", "multi:extrn", "multi:tabled1",
     "multi:set", "multi:rddmig-ok", "multi:rddmig-no-dmig-card", "rddmigx:expanded", "rddmigx:square", "rddmigx:expandedsquare", "rddmigx:form1-expanded", "rddmigx:form1-square",
     "rddmigx:form2-expanded", "rddmigx:form6-expanded", "rddmigx:form6-square", "rddmigx:form9-expanded", "rddmigx:form9-square",
@@ -2427,25 +2437,33 @@ def _o_multi(case):
 
 def _o_e3(case):
     """a NEGATIVE value whose decimal exponent has three digits (|x| >= 1e100 or < 1e-99): '{:16.9E}' needs 17 characters.
-    wtdmig / wttabled1 (default form) then write an over-long field and the reader returns a different number"""
+    wtdmig (finding F64, repaired by 4411a34: `_dmig_field` falls back to '{:16.8E}') must keep every line within 72
+    columns and read the value back to the nine digits written — also as real / imaginary part of a complex term;
+    wttabled1 with its default pair format has no fallback (finding F65, open)"""
     import pandas as pd
 
     bulk = _bulk()
     x = case["x"]
     if case["writer"] == "wtdmig":
         ind = pd.MultiIndex.from_tuples([(1, 1), (1, 2)], names=["id", "dof"])
-        a = np.array([[x, 0.0], [0.0, 1.0]])
+        z = complex(x, -x) if case.get("complex") else x
+        a = np.array([[z, 0.0], [0.0, 1.0]])
         text = _write(bulk.wtdmig, {"k": pd.DataFrame(a, index=ind, columns=ind)})
         got = _read(bulk.rddmig, text)
-        y = None if isinstance(got, str) else float(got["k"].values[0, 0])
+        y = None if isinstance(got, str) else complex(got["k"].values[0, 0])
+        bad = (y is None or abs(y.real - z.real) > 5.05e-9 * abs(z.real) or abs(y.imag - z.imag) > 5.05e-9 * abs(z.imag)
+               or any(len(l) > 72 for l in text.split("\n")))
+        fam = FIXED_F64
     else:
         text = _write(bulk.wttabled1, 1, [0.0, 1.0], [x, 1.0])
         got = _read(bulk.rdtabled1, text)
         y = None if isinstance(got, str) or got[1].shape != (2, 2) else float(got[1][0, 1])
-    if y is None or abs(y - x) > 5.05e-10 * abs(x):
-        return ("%s-negative-value-three-digit-exponent-overflows-field" % case["writer"],
-                "%s writes %r with '{:16.9E}' as a 17-character field (max line %d columns); read back: %r"
-                % (case["writer"], x, max(len(l) for l in text.split("\n")), y if y is not None else str(got)[:80]), y, x)
+        bad = y is None or abs(y - x) > 5.05e-10 * abs(x)
+        fam = OPEN_F65
+    if bad:
+        return (fam, "%s writes %r with '{:16.9E}' as a 17-character field (max line %d columns); read back: %r"
+                % (case["writer"], x, max(len(l) for l in text.split("\n")), y if y is not None else str(got)[:80]),
+                None if y is None else ([y.real, y.imag] if isinstance(y, complex) else y), x)
     return None
 
 
@@ -2607,8 +2625,10 @@ def _gen_oracle_cases(ctx):
             ctx.count("oracle:cordchain:depth=%d:%s" % (min(c["depth"], 4), c["order"]))
     # magnitudes at the edge of what the field holds: three-digit exponents, positive (16 characters) and negative (17)
     for w in ("wtdmig", "wttabled1"):
-        for x in (1e100, 2.5e-120, -1e99, -3e-99, -1e100, -2.5e-120):
+        for x in (1e100, 2.5e-120, -1e99, -3e-99, -1e100, -2.5e-120, -1.5e308, -5e-324):
             cases.append(("e3", {"writer": w, "x": x}))
+            if w == "wtdmig":
+                cases.append(("e3", {"writer": w, "x": x, "complex": True}))
     # one file, several readers
     for _ in range(ctx.pick(60, 600)):
         text, _segs, own, sets = _gen_multi_file(rng)
@@ -2708,10 +2728,13 @@ def _run_oracle_case(kind, case, known):
     return []
 
 
-# defect families proposed in a report but not (yet) listed in known_findings.json.  Empty by default: a new genuine
-# failing input is a VIOLATION until the integrator lists it.  (C13_QUIET=<family>,<family> moves families here for a
-# development run — sensitivity trials on a mutated tree — so that they are recorded in the evidence only.)
-UNLISTED_OK = set(f for f in os.environ.get("C13_QUIET", "").split(",") if f)
+# defect families proposed in a report but not (yet) listed in known_findings.json: none (a new genuine failing input
+# is a VIOLATION until the integrator lists it)
+UNLISTED_OK = set()
+
+# F64 (fixed in /repo 4411a34): regression guard, must pass on the repaired tree.  F65 (open): reported -> KNOWN-FINDING.
+FIXED_F64 = "wtdmig-negative-value-three-digit-exponent-overflows-field"
+OPEN_F65 = "wttabled1-negative-value-three-digit-exponent-overflows-field"
 
 
 def search(ctx, hints):
